@@ -75,9 +75,11 @@ SIG = {
     'sp108_K': 'bytes',
     # ---- RFC 7914 ---------------------------------------------------------------------------------------------------
     # B'_0 || ... || B'_{n-1},  B'_i = scryptROMix(r, B_i, N),  B_i = b[blen*i : blen*(i+1)].   `end` is blen*n, carried as its own
-    # argument so that the block boundaries stay linear terms (end - blen, end) in every unfolding
+    # argument so that the block boundaries stay linear terms (end - blen, end) in every unfolding; subseq(b, start, length) is
+    # the clause-language builtin for bytes [start, start + length) of b (== b[start:start + length] whenever that range lies
+    # inside b, which is the only case the definition is used for)
     'scrypt_mix': {'sort': 'bytes', 'uf': True,
-                   'facts': ['result == ite(n <= 0, b"", scrypt_mix(b, blen, N, n - 1, end - blen) + romix(N, b[end - blen:end]))']},
+                   'facts': ['result == ite(n <= 0, b"", scrypt_mix(b, blen, N, n - 1, end - blen) + romix(N, subseq(b, end - blen, blen)))']},
     'is_pow2_below_2_32': 'bool', 'scrypt_params_ok': 'bool', 'scrypt': 'bytes',
     'bcrypt_key': 'bytes', 'bcrypt_raw': 'bytes', 'bcrypt_string': 'bytes', 'bcrypt': 'bytes', 'bcrypt_domain_ok': 'bool',
 }
